@@ -135,6 +135,7 @@ def simulate(c, ops, rnd, budget=None):
         pending_w = None            # write event whose data is sampled now
         pending_r = False
         flush_tail = 0
+        quiet = 0
         reads_expected = 0
         idle_bus = (0, 0, 0)
         for t in range(budget):
@@ -201,7 +202,9 @@ def simulate(c, ops, rnd, budget=None):
             if k >= len(ops):
                 flush_tail += 1
                 flush = int(flush_tail % 7 < 3)
-                if not queue and st["reads_returned"] >= reads_expected and not wq and flush_tail > 60:
+                busy = prev is not None and (o_tcv or o_twv or queue or pending_w is not None or pending_r)
+                quiet = 0 if busy else quiet + 1
+                if st["reads_returned"] >= reads_expected and not wq and flush_tail > 60 and quiet > 40:
                     break
             cv = cw = ca = cl = 0
             if k < len(ops):
